@@ -1,1 +1,6 @@
+pub mod common;
 pub mod c01;
+pub mod c02;
+pub mod c03;
+pub mod c09;
+pub mod c11;
